@@ -29,7 +29,9 @@ fn ops_on_parsed(p: &RtpPacket) {
 }
 
 fn call_rtp(b: &[u8]) -> String {
-    match RtpPacket::parse(b) {
+    let r = RtpPacket::parse(b);
+    super::mark_alloc();
+    match r {
         Ok(p) => { ops_on_parsed(&p); format!("ok {}", rtp_digest(&p)) }
         Err(e) => err_text(&e),
     }
@@ -99,7 +101,9 @@ pub fn rtcp_digest(p: &RtcpPacket) -> String {
 }
 
 fn call_rtcp(b: &[u8]) -> String {
-    match parse_rtcp_packets(b, None) {
+    let r = parse_rtcp_packets(b, Some("127.0.0.1:5004".parse().unwrap()));
+    super::mark_alloc();
+    match r {
         Ok(ps) => {
             let _ = marshal_rtcp_packets(&ps);          // re-serialising parsed packets must be total
             format!("ok {};{}", ps.len(), ps.iter().map(rtcp_digest).collect::<Vec<_>>().join(";"))
@@ -113,7 +117,14 @@ fn gen_blocks(rng: &mut Rng) -> Vec<ReportBlock> {
         packets_lost: (rng.range(0, 1 << 24) as i32) - (1 << 23), highest_sequence: rng.next() as u32, jitter: rng.next() as u32,
         last_sender_report: rng.next() as u32, delay_since_last_sender_report: rng.next() as u32 }).collect()
 }
-fn gen_text(rng: &mut Rng) -> String { (0..rng.range(0, 20)).map(|_| (b'a' + rng.below(26) as u8) as char).collect() }
+fn gen_text(rng: &mut Rng) -> String {
+    match rng.below(8) {
+        0 => "é".repeat(rng.range(40, 130) as usize),                       // > 255 bytes of 2-byte characters (cut at a boundary)
+        1 => format!("{}€{}", "x".repeat(rng.range(250, 256) as usize), "y".repeat(5)),   // multi-byte character straddling byte 255
+        2 => "\u{FFFD}".repeat(rng.range(1, 90) as usize),
+        _ => (0..rng.range(0, 20)).map(|_| (b'a' + rng.below(26) as u8) as char).collect(),
+    }
+}
 
 pub fn gen_rtcp_packet(rng: &mut Rng) -> RtcpPacket {
     match rng.below(9) {
@@ -137,9 +148,30 @@ pub fn gen_rtcp_packet(rng: &mut Rng) -> RtcpPacket {
             feedback_packet_count: rng.next() as u8, payload: { let n = 4 * rng.range(0, 5) as usize; rng.bytes(n) } }),
     }
 }
+/// oracle-only stream `rtcpmarshal`: the marshal side of RTCP on structured packets (incl. text that is not ASCII and longer
+/// than the one-byte length field): total, output bounded by the packet, and what it writes parses again. Input = generator seed.
+fn run_rtcpmarshal(run: &mut Run, seed: u64, nt: bool) {
+    let mut r = Rng::new(seed);
+    let ps: Vec<RtcpPacket> = (0..r.range(1, 4)).map(|_| gen_rtcp_packet(&mut r)).collect();
+    let size: usize = ps.iter().map(|p| match p {
+        RtcpPacket::SourceDescription(s) => 64 + s.chunks.iter().map(|c| 8 + c.items.iter().map(|i| 2 + i.text.len()).sum::<usize>()).sum::<usize>(),
+        RtcpPacket::Goodbye(b) => 64 + b.reason.as_ref().map(|t| t.len()).unwrap_or(0),
+        _ => 256 }).sum();
+    let last = super::exec(run, "rtcpmarshal", &seed.to_string(), "rtp::marshal_rtcp_packets", nt, Some((8, 1024, size as u64)), move || {
+        match marshal_rtcp_packets(&ps) {
+            Ok(v) => match parse_rtcp_packets(&v, None) { Ok(q) if q.len() == ps.len() => "noncompared".into(), Ok(q) => format!("roundtrip-count {} {}", ps.len(), q.len()),
+                Err(e) => format!("roundtrip-{}", err_text(&e)) },
+            Err(_) => "noncompared".into(),
+        }
+    });
+    if last.starts_with("roundtrip") { run.fail("roundtrip:rtp::marshal_rtcp_packets", &format!("rtcpmarshal {seed}"), &last); }
+}
+
 fn valid_rtcp(rng: &mut Rng) -> Vec<u8> {
     let ps: Vec<RtcpPacket> = (0..rng.range(1, 4)).map(|_| gen_rtcp_packet(rng)).collect();
-    let mut v = marshal_rtcp_packets(&ps).expect("valid RTCP marshals");
+    let ps2 = ps.clone();
+    // a panic here is reported by the `rtcpmarshal` stream; the generator itself must survive it
+    let mut v = match crate::catch(move || marshal_rtcp_packets(&ps2).ok()).unwrap_or(None) { Some(v) => v, None => marshal_rtcp_packets(&[RtcpPacket::PictureLossIndication(PictureLossIndication { sender_ssrc: 1, media_ssrc: 2 })]).unwrap() };
     if rng.chance(1, 5) && !v.is_empty() {
         // RTCP padding on the last packet: set P bit, append pad words
         let mut off = 0; let mut last = 0;
@@ -155,9 +187,9 @@ pub fn targets() -> Vec<Target> {
     vec![
         // rtp: parse copies the input (1·len+60); the parsed-packet operations in the same call (clone, 3×marshal,
         // 2×set_extension) add ≤ 8·len + 2000
-        Target { stream: "rtp", entry: "RtpPacket::parse/ops", call: call_rtp, valid: valid_rtp, alloc: Some((9, 2060)), weight: 2 },
+        Target { stream: "rtp", entry: "RtpPacket::parse/ops", call: call_rtp, valid: valid_rtp, alloc: Some((1, 60)), weight: 2 },
         // rtcp: theorem 40·len+1280; the re-marshal of the parsed packets in the same call adds ≤ 20·len
-        Target { stream: "rtcp", entry: "parse_rtcp_packets", call: call_rtcp, valid: valid_rtcp, alloc: Some((60, 1280)), weight: 3 },
+        Target { stream: "rtcp", entry: "parse_rtcp_packets", call: call_rtcp, valid: valid_rtcp, alloc: Some((40, 1280)), weight: 3 },
     ]
 }
 
@@ -173,14 +205,14 @@ fn mk_header(present: bool, profile: u16, block: &[u8]) -> RtpHeader {
 fn run_getext(run: &mut Run, id: u8, present: bool, profile: u16, block: &[u8], nt: bool) {
     let h = mk_header(present, profile, block);
     let input = format!("{id} {} {profile} {}", present as u8, hex(block));
-    exec(run, "getext", &input, "RtpHeader::get_extension", nt, Some((0, 64, 0)), move || match h.get_extension(id) {
-        None => "ok none".into(), Some(b) => format!("ok some {}", hex(&b)) });
+    exec(run, "getext", &input, "RtpHeader::get_extension", nt, Some((0, 0, 0)), move || { let r = h.get_extension(id); super::mark_alloc(); match r {
+        None => "ok none".into(), Some(b) => format!("ok some {}", hex(&b)) } });
 }
 fn run_setext(run: &mut Run, id: u8, data: &[u8], present: bool, profile: u16, block: &[u8], nt: bool) {
     let mut h = mk_header(present, profile, block);
     let input = format!("{id} {} {} {profile} {}", hex(data), present as u8, hex(block));
     let d = data.to_vec();
-    exec(run, "setext", &input, "RtpHeader::set_extension", nt, Some((10, 200, block.len() as u64)), move || match h.set_extension(id, &d) {
+    exec(run, "setext", &input, "RtpHeader::set_extension", nt, Some((10, 200, block.len() as u64)), move || { super::start_alloc(); let r = h.set_extension(id, &d); super::mark_alloc(); match r {
         Ok(()) => {
             let e = h.extension.as_ref().expect("extension present after set");
             // the rebuilt packet must still marshal (aligned block)
@@ -188,20 +220,23 @@ fn run_setext(run: &mut Run, id: u8, data: &[u8], present: bool, profile: u16, b
             let m = p.marshal();
             format!("ok {}{}", hex(&e.data), if m.is_ok() { "" } else { " marshal-failed" })
         }
-        Err(e) => err_text(&e) });
+        Err(e) => err_text(&e) } });
 }
-fn run_marshal(run: &mut Run, ncsrc: usize, has_ext: bool, ext_len: usize, payload: usize, pad: u8, nt: bool) {
-    let mut h = RtpHeader::new(96, 1, 2, 3);
+fn run_marshal(run: &mut Run, pt: u8, ncsrc: usize, has_ext: bool, ext_len: usize, payload: usize, pad: u8, nt: bool) {
+    let mut h = RtpHeader::new(pt, 1, 2, 3);
     h.csrcs = vec![7; ncsrc];
     if has_ext { h.extension = Some(RtpHeaderExtension::new(0xBEDE, vec![0; ext_len])); }
     let mut p = RtpPacket::new(h, vec![5; payload]);
     p.padding_len = pad;
-    let input = format!("{ncsrc} {} {ext_len} {payload} {pad}", has_ext as u8);
+    let input = format!("{pt} {ncsrc} {} {ext_len} {payload} {pad}", has_ext as u8);
     let total = (12 + 4 * ncsrc + if has_ext { 4 + ext_len } else { 0 } + payload + pad as usize) as u64;
-    exec(run, "marshal", &input, "RtpPacket::marshal", nt, Some((1, 64, total)), move || {
+    exec(run, "marshal", &input, "RtpPacket::marshal", nt, Some((1, 0, total)), move || {
+        super::start_alloc();
+        let r = p.marshal();
+        super::mark_alloc();
         let mut buf = Vec::new();
         p.marshal_into(&mut buf);                         // the unchecked fast path must be total as well
-        match p.marshal() { Ok(v) => { assert_eq!(v.len(), buf.len()); format!("ok {}", v.len()) } Err(e) => err_text(&e) } });
+        match r { Ok(v) => { assert_eq!(v.len(), buf.len()); format!("ok {}", v.len()) } Err(e) => err_text(&e) } });
 }
 
 fn gen_block(rng: &mut Rng) -> Vec<u8> {
@@ -247,7 +282,8 @@ pub fn special(run: &mut Run, rng: &mut Rng, thorough: bool) {
             for m in rtcp_reframed(&v) { super::run_bytes(run, t, &m, true); }
         }
     }
-    let profiles = [0xBEDEu16, 0x1000, 0x1234];
+    for _ in 0..(if thorough { 60_000 } else { 2_000 }) { let seed = rng.next(); run_rtcpmarshal(run, seed, true); }
+    let profiles = [0xBEDEu16, 0x1000, 0x1005, 0x100F, 0x1010, 0x0FFF, 0x1234];
     // exhaustive: every block of length ≤ 1 (≤ 2 thorough) × every id × both profiles
     let mut small: Vec<Vec<u8>> = vec![vec![]];
     for a in 0..=255u8 { small.push(vec![a]); }
@@ -276,17 +312,19 @@ pub fn special(run: &mut Run, rng: &mut Rng, thorough: bool) {
     for _ in 0..(if thorough { 20_000 } else { 1_500 }) {
         let ncsrc = *rng.pick(&[0usize, 0, 1, 2, 15, 16, 17, 40]);
         let has_ext = rng.chance(1, 2);
-        let ext_len = *rng.pick(&[0usize, 1, 3, 4, 8, 12, 13, 1024]);
-        run_marshal(run, ncsrc, has_ext, ext_len, rng.below(300) as usize, *rng.pick(&[0u8, 0, 1, 4, 255]), true);
+        let ext_len = *rng.pick(&[0usize, 1, 3, 4, 8, 12, 13, 1024, 262140, 262144, 262148]);
+        let pt = *rng.pick(&[0u8, 96, 96, 127, 128, 255]);
+        run_marshal(run, pt, ncsrc, has_ext, ext_len, rng.below(300) as usize, *rng.pick(&[0u8, 0, 1, 4, 255]), true);
     }
 }
 
 pub fn replay_special(run: &mut Run, stream: &str, a: &[&str]) -> bool {
     let p = |s: &str| s.parse::<u64>().unwrap_or(0);
     match (stream, a.len()) {
+        ("rtcpmarshal", 1) => run_rtcpmarshal(run, p(a[0]), true),
         ("getext", 4) => run_getext(run, p(a[0]) as u8, a[1] == "1", p(a[2]) as u16, &unhex(a[3]), true),
         ("setext", 5) => run_setext(run, p(a[0]) as u8, &unhex(a[1]), a[2] == "1", p(a[3]) as u16, &unhex(a[4]), true),
-        ("marshal", 5) => run_marshal(run, p(a[0]) as usize, a[1] == "1", p(a[2]) as usize, p(a[3]) as usize, p(a[4]) as u8, true),
+        ("marshal", 6) => run_marshal(run, p(a[0]) as u8, p(a[1]) as usize, a[2] == "1", p(a[3]) as usize, p(a[4]) as usize, p(a[5]) as u8, true),
         _ => return false,
     }
     true
